@@ -61,8 +61,26 @@ def maybeQueuePingreq (w : World) (now : Nat) : Except Err World :=
 def completeFlush (w : World) (pkt : Flushed) (now : Nat) : World :=
   { w with sess := w.sess.completeFlush pkt now }
 
+/-- Ghost: the log entry for queue entry `pkt` — its tag and the bytes `perform_outbound_step` writes
+for it (acknowledgements, PINGREQ and PUBREL are encoded from the entry, a retained packet is read from
+the arena), on the current transport. -/
+def doneFrame (w : World) (pkt : Flushed) : LogEntry :=
+  let o := w.sess.data.outbound
+  match pkt with
+  | .control a => { net := w.nets.length, tag := .control a, bytes := ((encodeControl a).toOption).getD [] }
+  | .release id =>
+    (match o.release.find? (fun e => e.id == id) with
+     | some e => { net := w.nets.length, tag := .release id e.rc, bytes := ((encodePubrel id e.rc).toOption).getD [] }
+     | none => { net := w.nets.length, tag := .unknown, bytes := [] })
+  | .retained id =>
+    (match o.retained.find? (fun e => e.id == id) with
+     | some e => { net := w.nets.length, tag := .retained e.ser id, bytes := o.retainedPacket e.offset e.len }
+     | none => { net := w.nets.length, tag := .unknown, bytes := [] })
+
 def setWritten (w : World) (pkt : Flushed) (written len : Nat) : World :=
-  { w with sess := w.sess.setWritten pkt written len }
+  { w with sess := w.sess.setWritten pkt written len,
+           -- ghost only: the entry's packet is now completely on the wire
+           log := if written ≥ len then w.log ++ [w.doneFrame pkt] else w.log }
 
 /-- What `perform_outbound_step` prepares before its first await. -/
 inductive Prepared where
